@@ -112,18 +112,19 @@ func (w *world) clone() *world {
 
 // FlowOpts configures one label-set dataflow run over a function.
 type FlowOpts struct {
-	Classify   Classifier
-	Target     func(in ssa.Instruction) bool // instructions at which worlds are recorded (state just before)
-	StartAfter ssa.Instruction               // if set: start just after this instruction instead of at entry
-	StartEdge  *ssa.BasicBlock               // if set together with StartSucc: start on that out-edge of an If block
-	StartSucc  int
-	Init       []string // labels in the initial world
-	Sticky     []string // labels that survive loop back edges ("happened at least once" facts)
-	Track      []*ssa.Phi // additional phis whose per-path value is tracked
+	Classify     Classifier
+	Target       func(in ssa.Instruction) bool // instructions at which worlds are recorded (state just before)
+	StartAfter   ssa.Instruction               // if set: start just after this instruction instead of at entry
+	StartEdge    *ssa.BasicBlock               // if set together with StartSucc: start on that out-edge of an If block
+	StartSucc    int
+	Init         []string   // labels in the initial world
+	Sticky       []string   // labels that survive loop back edges ("happened at least once" facts)
+	StopAtTarget bool       // paths end at the first target they reach
+	Track        []*ssa.Phi // additional phis whose per-path value is tracked
 	// Probe is called for every world reaching a target; it may resolve values
 	// in that world (tracked phis, spilled locals) and returns extra labels.
-	Probe func(in ssa.Instruction, resolve func(ssa.Value) ssa.Value) []string
-	MaxWorlds  int
+	Probe     func(in ssa.Instruction, resolve func(ssa.Value) ssa.Value) []string
+	MaxWorlds int
 }
 
 // FlowResult holds the recorded worlds.
@@ -423,6 +424,10 @@ func (e *Engine) flowOnce(fn *ssa.Function, o FlowOpts, genBlocks map[string]map
 						res.At[in] = append(res.At[in], ls)
 					}
 				}
+			}
+			if o.StopAtTarget && o.Target != nil && o.Target(in) {
+				ws = nil
+				break
 			}
 			switch t := in.(type) {
 			case *ssa.If:
